@@ -230,6 +230,33 @@ def _gen_image(rng: random.Random, sd: int = 0):
     npr = np.random.default_rng(rng.randrange(2**31))
     if shape == [15, 23] and rng.random() < 0.5:
         style = "sandwich"
+    if dim == 2 and any(per) and rng.random() < 0.25:
+        style = "comb"
+    if style == "comb":
+        # a comb across a periodic seam: the spine on one side of the boundary, three or more separate teeth on the other
+        # (one component, many pieces; the chain of merges is as long as the number of teeth)
+        m = np.zeros(shape, bool)
+        a = rng.choice([k for k in range(2) if per[k]])
+        b = 1 - a
+        spine_side = rng.choice([0, shape[a] - 1])
+        teeth_from = 0 if spine_side == shape[a] - 1 else shape[a] - 1
+        step = 1 if teeth_from == 0 else -1
+        idx = [slice(None), slice(None)]
+        idx[a] = spine_side
+        lo_b = rng.randint(0, 1)
+        hi_b = shape[b] - rng.randint(0, 1)
+        idx[b] = slice(lo_b, hi_b)
+        m[tuple(idx)] = True
+        if rng.random() < 0.5:      # a thicker spine
+            idx[a] = spine_side - step
+            m[tuple(idx)] = True
+        for t in range(lo_b, hi_b, 2):
+            for k in range(rng.randint(1, 3)):
+                cell = [0, 0]
+                cell[a] = teeth_from + step * k
+                cell[b] = t
+                m[tuple(cell)] = True
+        return shape, per, m
     if style == "sandwich":
         # polydisperse: two long thin bars a few rows apart (their equal-volume spheres overlap although the bars do
         # not touch) and two single cells on the far sides, each nearer to its bar's centre than the other bar is but
